@@ -223,6 +223,10 @@ def aa_info(tc):
 # the engine
 # ---------------------------------------------------------------------------------------------------------
 
+# events that hand raw bits or bytes in or out (their meaning under lsb0 is C12 / C17 territory): msb0 runs only
+LSB0_SKIP = ('tobytes', 'tofile', 'fromfile', 'ctor', 'set_data', 'byteswap', 'poke_src', 'extend_aa', 'equals')
+
+
 class EArray(Engine):
     prop = 'C14'
     name = 'E-ARRAY'
@@ -240,7 +244,7 @@ class EArray(Engine):
                        'SimFS (scratch directory of real files under /dev/shm) / io.BytesIO / SimWriter without fault plan']
     assumptions = ['item encodings/decodings are taken from the library (Dtype.build / Dtype.parse): C14 decides list and '
                    'offset arithmetic, promotion and atomicity, not the numeric correctness of an encoding (C02/C11)',
-                   'options.lsb0 stays False and mxfp_overflow at saturate for the whole run; options.bytealigned is a per-run knob and is flipped by events',
+                   'mxfp_overflow stays at saturate; options.bytealigned is a per-run knob and is flipped by events; a share of the runs execute under options.lsb0, where the list behaviour is the same and only the stored order is mirrored (item i at LSB0 positions [i*w, (i+1)*w)) - events that hand raw bits or bytes in or out are left to the msb0 runs',
                    'element-wise in-place operators may keep or drop trailing bits (DESIGN 5.3)',
                    'native byte order and array.array item sizes are those of the machine running the check']
     expected_probes = ('trailing:item-op', 'iop:first-unfit-at-0', 'iop:first-unfit-in-middle', 'iop:first-unfit-at-last',
@@ -264,7 +268,9 @@ class EArray(Engine):
         focus = g.wpick([('mixed', 4), ('list', 3), ('slices', 2), ('ops', 4), ('io', 1), ('dtype', 1.5), ('faults', 2)])
         return {'dt': key, 'init': g.bits(n * d.w) + g.bits(tl), 'avoid': bool(desc.get('avoid')), 'focus': focus,
                 # knob: options.bytealigned is a default for searches in bitstrings and means nothing for an Array
-                'bytealigned': g.chance(0.15)}
+                'bytealigned': g.chance(0.15),
+                # knob: the list behaviour of an Array is the same under options.lsb0 (only the stored order of the items is mirrored)
+                'lsb0': g.chance(0.15)}
 
     def start(self, cfg):
         self.R = loader.main()
@@ -282,6 +288,10 @@ class EArray(Engine):
         self._incs = []
         self._op, self._trig = 'start', '-'
         self._src = None
+        self.lsb0 = bool(cfg.get('lsb0'))
+        if self.lsb0:
+            self.B.options.lsb0 = True
+            self.probe('option:lsb0')
         if cfg.get('bytealigned'):
             self.B.options.bytealigned = True
             self.probe('option:bytealigned')
@@ -363,9 +373,24 @@ class EArray(Engine):
         except Exception:
             return None
 
+    # Under options.lsb0 an Array keeps item i at bit positions [i*w, (i+1)*w) in LSB0 numbering: in stored order the items stand in
+    # reverse and the trailing bits come first.  The model stays in list order; these two helpers translate at the boundary.
+    def to_model_order(self, real, w):
+        if not self.lsb0 or not isinstance(real, str):
+            return real
+        n = len(real) // w
+        trail = real[:len(real) - n * w]
+        return ''.join(real[len(real) - (i + 1) * w:len(real) - i * w] for i in range(n)) + trail
+
+    def to_stored_order(self, bits, w):
+        if not self.lsb0:
+            return bits
+        items, trail = split(bits, w)
+        return trail + ''.join(reversed(items))
+
     def mk_array(self, key, bits):
         a = self.B.Array(key)
-        a.data = self.B.BitArray(bin=bits)
+        a.data = self.B.BitArray(bin=self.to_stored_order(bits, TABLE[key].w if key in TABLE else a.itemsize))
         return a
 
     def _fs(self):
@@ -413,7 +438,7 @@ class EArray(Engine):
 
     def _real_bits(self):
         st, b = call(lambda: kernel.safe_bin(self.a.data))
-        return b if st == 'ok' and isinstance(b, str) else None
+        return self.to_model_order(b, self.dt.w) if st == 'ok' and isinstance(b, str) else None
 
     def adopt(self, candidates):
         """The statement leaves several outcomes open (DESIGN 5.3, prefix-under-fault): candidates is a list of
@@ -475,6 +500,8 @@ class EArray(Engine):
         fn = getattr(self, 'ev_' + str(k), None)
         if fn is None:
             return {'skip': str(k)}, []
+        if getattr(self, 'lsb0', False) and k in LSB0_SKIP:
+            return {'skip': 'byte-level event: msb0 runs only'}, []
         self._incs = []
         self._op, self._trig = str(k), self.tb()
         n0, t0 = len(self.items), bool(self.trail)
@@ -581,7 +608,7 @@ class EArray(Engine):
         if st != 'ok' or dd != dt.ident:
             self.fail('wrong-result-dtype', got=kernel.canon(dd), want=list(dt.ident), **detail)
             return False
-        st, bits = call(lambda: kernel.safe_bin(r.data))
+        st, bits = call(lambda: self.to_model_order(kernel.safe_bin(r.data), dt.w))
         want = ''.join(want_items)
         if st == 'ok' and (bits == want or (allow_trailing and self.trail and bits == want + self.trail)):
             return True
@@ -917,7 +944,7 @@ class EArray(Engine):
     def ev_props(self, ev):
         self._op = 'props'
         a = self.a
-        st, r = call(lambda: (a.data.bin, a.trailing_bits.bin, a.itemsize, len(a.data)))
+        st, r = call(lambda: (self.to_model_order(a.data.bin, a.itemsize), a.trailing_bits.bin, a.itemsize, len(a.data)))
         want = (self.bits(), self.trail, self.dt.w, len(self.bits()))
         if self.want_ok(st, r) and r != want:
             self.fail('wrong-return', got=kernel.canon(r), want=kernel.canon(want))
@@ -963,6 +990,8 @@ class EArray(Engine):
         if src == 'array' and not faulty:
             return self._extend_array(ev, old)
         if src == 'arrayarray' and not faulty:
+            if self.lsb0:
+                return {'skip': 'raw bytes of an array.array: msb0 runs only'}
             return self._extend_aa(ev, old)
         if src == 'self' and not faulty:
             self._trig = self.tb('self')
@@ -1044,7 +1073,7 @@ class EArray(Engine):
                     self.items = old + its
         else:
             self.want_raise(st, r, ('TypeError', 'ValueError'), **detail)
-        if kernel.safe_bin(o.data) != ''.join(its) + tr:
+        if self.to_model_order(kernel.safe_bin(o.data), max(len(its[0]), 1) if its else 1) != ''.join(its) + tr and not (self.lsb0 and not its):
             self.fail('operand-changed', **detail)
         return self._obs(st, r)
 
@@ -1148,7 +1177,10 @@ class EArray(Engine):
             st, r = call(f)
             if self.want_ok(st, r, dt2=key, via=via):
                 n0 = len(self.items)
+                # the data is re-read, untouched, with the new item width (under lsb0: counted from the other end of the stored bits)
+                old_bits = self.to_stored_order(old_bits, self.dt.w)
                 self.dt = d2
+                old_bits = self.to_model_order(old_bits, d2.w)
                 self.items, self.trail = split(old_bits, d2.w)
                 if len(self.items) != n0:
                     self.probe('dtype:reread-changes-len')
@@ -1661,8 +1693,8 @@ class EArray(Engine):
         if len(ys) == n and not nonnum and self._heavy(opname, xs, ys):
             return {'skip': 'heavy'}
         st, r = call(fn, self.a, o)
-        ob = kernel.safe_bin(o.data)
-        if ob != ''.join(its) + tr:
+        ob = self.to_model_order(kernel.safe_bin(o.data), max(len(its[0]), 1) if its else 1)
+        if ob != ''.join(its) + tr and not (self.lsb0 and not its):
             self.fail('operand-changed', **detail)
         if len(ys) != n:
             self.want_raise(st, r, ('ValueError', 'TypeError'), **detail)
